@@ -46,6 +46,65 @@ def _task(args):
     return out
 
 
+def _child(conn, t):
+    try:
+        conn.send(_task(t))
+    finally:
+        conn.close()
+
+
+def _run_tasks(tasks, jobs, tier):
+    """One process per (part, shard); at most `jobs` at a time; a task that exceeds the safety limit is killed and
+    reported as a harness error (inconclusive, exit 2) - never as a violation."""
+    limit = float(os.environ.get('PV_TASK_TIMEOUT', '2400' if tier == 'quick' else '14400'))
+    ctx = mp.get_context('fork')
+    pending = list(tasks)
+    running = []
+    results = []
+    jobs = max(1, jobs)
+    while pending or running:
+        while pending and len(running) < jobs:
+            t = pending.pop(0)
+            pc, cc = ctx.Pipe(duplex=False)
+            p = ctx.Process(target=_child, args=(cc, t))
+            p.start()
+            cc.close()
+            running.append((p, pc, t, time.time()))
+        still = []
+        for p, pc, t, st in running:
+            r = None
+            if pc.poll(0.02):
+                try:
+                    r = pc.recv()
+                except EOFError:
+                    r = None
+                p.join(5)
+                if r is None:
+                    r = _failed(t, f'worker died without a result (exit code {p.exitcode})')
+            elif not p.is_alive():
+                p.join()
+                r = _failed(t, f'worker died without a result (exit code {p.exitcode})')
+            elif time.time() - st > limit:
+                p.kill()
+                p.join()
+                r = _failed(t, f'task exceeded the safety limit of {limit:.0f}s and was stopped (inconclusive)')
+            if r is None:
+                still.append((p, pc, t, st))
+            else:
+                results.append(r)
+        running = still
+    return results
+
+
+def _failed(t, msg):
+    rec = Rec(t[1])
+    rec.harness_error = msg
+    out = rec.to_dict()
+    out['wall_s'] = 0.0
+    out['shard'] = t[2]
+    return out
+
+
 def _find_findings(pid):
     path = os.path.join(HERE, 'known_findings.jsonl')
     res = []
@@ -93,16 +152,7 @@ def main(argv=None):
             continue
         for s in range(n):
             tasks.append((pid, p.name, s, n, seed * 100003 + pi * 1009 + s, a.tier))
-    results = []
-    ctx = mp.get_context('fork')
-    jobs = max(1, min(a.jobs, len(tasks)))
-    if jobs == 1:
-        for t in tasks:
-            results.append(_task(t))
-    else:
-        with ctx.Pool(processes=jobs, maxtasksperchild=1) as pool:
-            for r in pool.imap_unordered(_task, tasks, chunksize=1):
-                results.append(r)
+    results = _run_tasks(tasks, a.jobs, a.tier)
     results.sort(key=lambda r: (r['part'], r['shard']))
 
     # ---- merge
